@@ -84,6 +84,9 @@ class World:
         vk.table = t
         vk.clock = self.clock
         vk.mount("/vproc", t)
+        tb = env["ProcTable"](self_pid=2)
+        tb.spawn(1, 1, ppid=0, comm=b"init")
+        vk.mount("/vprocB", tb)          # somebody else's procfs: no trace of our processes there
         self.vk = vk
 
         def hook(pid, flags):
@@ -136,6 +139,7 @@ class World:
 
     def __exit__(self, *a):
         env = _env
+        self.ps.PROCFS_PATH = "/vproc"
         env["pp"].wait_pid.__defaults__ = env["orig_defaults"]
         self.ps._timer = env["orig_timer"]
         self.vk.__exit__(*a)
@@ -190,6 +194,11 @@ def run_wait_case(case, acc):
                 viols.append(("negative_timeout_polled", ctx))
             acc.case(case, False, viols)
             return
+        if case.get("moved_procfs"):
+            # psutil.PROCFS_PATH is re-pointed after the object was made (at a tree that does not hold this PID): waiting is a
+            # matter between the caller and the kernel (waitpid / kill 0), not of whichever procfs is on display
+            w.ps.PROCFS_PATH = "/vprocB"
+            acc.count("waits_after_procfs_path_moved_elsewhere")
         if case.get("recycled"):
             # the process the object was made for is gone and its PID already belongs to somebody else (not our child) when
             # wait() is first called: the call keeps its documented way of working - it waits for the PID, i.e. returns None
@@ -345,6 +354,8 @@ def grid_cases(tier):
         for x in (0.01, 0.1, 0.29, 0.31, 1.0, None):
             if not (timeout is None and x is None):
                 out.append(dict(kind="nonchild", exit_at=x, status=0, timeout=timeout, recycled=True))
+                for kind_ in ("nonchild", "child"):
+                    out.append(dict(kind=kind_, exit_at=x, status=(2 << 8), timeout=timeout, moved_procfs=True))
     for timeout in (None, 0, 0.2):
         out.append(dict(kind="never", exit_at=None, status=0, timeout=timeout))
     for timeout in (-1, -0.0001, -1e9):
@@ -377,6 +388,8 @@ def gen_wait_case(rng):
         case["eintr_at"] = rng.randrange(0, 30)
     if kind == "nonchild" and rng.random() < 0.2 and (exit_at is None or exit_at > 0):
         case["recycled"] = True
+    if rng.random() < 0.12:
+        case["moved_procfs"] = True
     if rng.random() < 0.15 and timeout is not None:
         case["exit_at"] = None
         case["exit_at_access"] = rng.randrange(0, 40)
